@@ -37,8 +37,8 @@ def analyse(s):
         if not all(0x20 <= ord(c) <= 0x3f for c in m.group(1)):
             tags.add('tokenisation')
         pos = m.end()
-    cells, fin, amb = sgrterm.run(s)
-    return ''.join(c for c, _ in cells), cells, tags | amb
+    cells, fin, amb = sgrterm.run(s, track_unknown=True)
+    return ''.join(c[0] for c in cells), cells, tags | amb
 
 
 def eval_parse(case):
@@ -62,18 +62,32 @@ def eval_parse(case):
         if v.base_str != text:
             o.fail('text', '%s(%r).base_str == %r expected %r' % (cn, s, v.base_str, text))
             continue
-        if tags:
+        if tags - {'empty', 'nonnumeric', 'incomplete', 'truncated', 'range'}:
             per_char(v)
             str(v)
             continue
         per = per_char(v)
         sty = styles(per)
         for k in range(len(text)):
-            if sty[k] != cells[k][1]:
-                o.fail('style', '%s(%r): char %d %r reports %r = %r; terminal shows %r' % (cn, s, k, text[k], per[k], sty[k], cells[k][1]))
-                break
+            unk = cells[k][2]
+            if not unk:
+                if sty[k] != cells[k][1]:
+                    o.fail('style', '%s(%r): char %d %r reports %r = %r; terminal shows %r' % (cn, s, k, text[k], per[k], sty[k], cells[k][1]))
+                    break
+            else:
+                # an earlier sequence was ambiguous: only the effects it could not have touched (or that were set / cleared
+                # again since) are determined - those are still asserted
+                ds, dt = dict(sty[k]), dict(cells[k][1])
+                bad = [g for g in sgrterm.SLOTS if g not in unk and ds.get(g) != dt.get(g)]
+                if bad:
+                    o.fail('style-determined-part', '%s(%r): char %d %r reports %r: effect %s is %r; terminal shows %r (undetermined effects: %s)' % (
+                        cn, s, k, text[k], per[k], bad[0], ds.get(bad[0]), dt.get(bad[0]), sorted(unk)))
+                    break
     if tags and '\x1b' in s:
-        o.skipped = 'ambiguous-style' if 'tokenisation' not in tags else 'ambiguous-tokenisation'
+        if 'tokenisation' in tags or 'body-bytes' in tags:
+            o.skipped = 'ambiguous-tokenisation'
+        else:
+            o.label('partly-determined-style')
     if not (vals[0].base_str == vals[1].base_str and per_char(vals[0]) == per_char(vals[1])):
         o.fail('classes-differ', '%r: %s vs %s' % (s, describe(vals[0]), describe(vals[1])))
     nt = nseq >= 2
